@@ -399,3 +399,41 @@ pub fn replay_file(prop: &dyn Property, path: &str) -> i32 {
         Exec::HarnessPanic(w) => { eprintln!("HARNESS-ERROR {}", w); 2 }
     }
 }
+
+/// Determinism self-check: the same seeds must give the same per-run reports whatever the thread
+/// count and whichever process runs them. Returns a digest of (fingerprint, evals, violation keys)
+/// per run index.
+pub fn digest_batch(prop: &dyn Property, seed: u64, runs: u64, threads: usize, tier: Tier) -> u64 {
+    let findings = Findings::load().unwrap_or_default();
+    let next = AtomicU64::new(0);
+    let out: Mutex<Vec<(u64, u64)>> = Mutex::new(Vec::new());
+    std::thread::scope(|s| {
+        for _ in 0..threads {
+            s.spawn(|| loop {
+                let i = next.fetch_add(1, Ordering::Relaxed);
+                if i >= runs { break; }
+                let mut src = Src::record(mix(seed, i));
+                let ctx = RunCtx { tier, trace: false, findings: &findings, index: i };
+                let h = match exec(prop, &mut src, &ctx) {
+                    Exec::Report(rep) => {
+                        let mut h = super::tape::fnv(rep.fingerprint, &rep.evals.to_le_bytes());
+                        h = super::tape::fnv(h, &rep.steps.to_le_bytes());
+                        for v in &rep.violations { h = super::tape::fnv(h, v.key.as_bytes()); }
+                        for f in &rep.sub_fps { h = super::tape::fnv(h, &f.to_le_bytes()); }
+                        let (tape, _) = src.into_tape();
+                        if std::env::var("VERIF_SELFTEST_DEBUG").is_ok() && i < 3 { println!("dbg run {} fp={:x} evals={} steps={} viol={:?} subfps={:?} tape={}", i, rep.fingerprint, rep.evals, rep.steps, rep.violations.iter().map(|v| v.key.clone()).collect::<Vec<_>>(), rep.sub_fps.iter().take(6).collect::<Vec<_>>(), tape.len()); }
+                        super::tape::fnv(h, &(tape.len() as u64).to_le_bytes())
+                    }
+                    Exec::HarnessPanic(_) => 0xdead,
+                };
+                out.lock().unwrap().push((i, h));
+            });
+        }
+    });
+    let mut v = out.into_inner().unwrap();
+    v.sort();
+    if std::env::var("VERIF_SELFTEST_DEBUG").is_ok() { for (i, h) in &v { println!("run {} {:016x}", i, h); } }
+    let mut d = 0u64;
+    for (i, h) in v { d = super::tape::fnv(d, &i.to_le_bytes()); d = super::tape::fnv(d, &h.to_le_bytes()); }
+    d
+}
